@@ -1210,6 +1210,7 @@ func (f *FileStore) CreateSnapshot() (string, error) {
 	f.currentTempDirID += 1
 	tmpPath := filepath.Join(f.dir, fmt.Sprintf("%d.%s", f.currentTempDirID, TmpTSMFileExtension))
 	f.mu.Unlock()
+	verifPoint("filestore.snapshot.refs", tmpPath)
 
 	// create the tmp directory and add the hard links. there is no longer any
 	// shared mutable state.
